@@ -147,6 +147,7 @@ type propRun struct {
 	solverTime                                float64
 	solverStats                               map[string]int
 	extra                                     map[string]interface{}
+	extraDischarged                           []string // ids discharged by def.Extra (recorded in the baseline)
 }
 
 func (r *propRun) exec() int {
@@ -341,13 +342,32 @@ func (r *propRun) exec() int {
 				r.broken = append(r.broken, "function in the recorded claim is no longer under contract: "+f)
 			}
 		}
-		if r.only == "" && r.nDischarged < len(bl.Discharged)*9/10 {
+		recordedUnits := 0
+		for _, id := range bl.Discharged {
+			if !strings.Contains(id, ".layout.") {
+				recordedUnits++
+			}
+		}
+		if r.only == "" && r.nDischarged < recordedUnits*9/10 {
 			r.broken = append(r.broken, fmt.Sprintf("obligation count dropped: %d discharged now, %d recorded", r.nDischarged, len(bl.Discharged)))
 		}
 	}
 	// known findings that no longer fail are fine (defect repaired); nothing to do.
 	if def.Extra != nil {
+		before := r.nDischarged
 		def.Extra(r)
+		newBL.Discharged = append(newBL.Discharged, r.extraDischarged...)
+		if bl != nil && !r.update && r.only == "" {
+			recorded := 0
+			for _, id := range bl.Discharged {
+				if strings.Contains(id, ".layout.") {
+					recorded++
+				}
+			}
+			if got := r.nDischarged - before; got < recorded*9/10 {
+				r.broken = append(r.broken, fmt.Sprintf("layout obligation count dropped: %d discharged now, %d recorded", got, recorded))
+			}
+		}
 	}
 	r.solverStats = solver.Stats
 	if r.update {
